@@ -18,7 +18,18 @@ the solver with the result of the same call on a FRESH algebra (for all coeffici
                 result is compared with a fresh algebra.
  every case     also proves that no operand and no previously returned multivector changed.
 
-Outside: thread schedules (no available engine models CPython threads symbolically).
+ object-history a pre-history on one multivector OBJECT (calls, operand use, inspection of cached properties)
+                before a multivector derived from it (map, filter, grade, ...) is called / used.
+ thread-schedules  two real threads make first calls on one fresh algebra; kv/sched.py hands a baton around so
+                that exactly one runs, and enumerates depth-first EVERY schedule with at most k preemptions
+                (k = 1 quick, 2 thorough) at the line boundaries of kingdon/operator_dict.py, do_codegen,
+                do_compile, lambdify, MultiVector.__call__/_callable and Algebra.register; operand values are
+                solver terms in every schedule.  Scenarios: same operator and pattern, permuted patterns
+                (shared function name), two operators of which one generates the other, calls of one symbolic
+                multivector, first calls of one registered function; routes plain / wrapper.
+
+Outside: preemption between bytecodes inside a line and inside functions that are not watched; more
+than two threads; more than k preemptions.
 """
 from __future__ import annotations
 
@@ -34,12 +45,12 @@ LEVEL = 'other'
 ENGINES = ['A']
 FUNCTIONS = ['OperatorDict.__getitem__/__call__/_call_binary (func vs numspace[func.__name__])', 'UnaryOperatorDict.__call__',
              'Registry.__getitem__/__call__', 'do_compile (glue calling generated functions by name)', 'do_codegen (function naming)',
-             'Algebra.register', 'TapeRecorder.binary_operator/unary_operator']
-ASSUMPTIONS = ['sequential histories only; operand values symbolic, histories/patterns/routes enumerated',
+             'Algebra.register', 'TapeRecorder.binary_operator/unary_operator', 'MultiVector.map/filter/grade/__call__/_callable/issymbolic/free_symbols (cached properties)']
+ASSUMPTIONS = ['operand values symbolic; histories/patterns/routes enumerated; thread schedules enumerated under a preemption bound (context-bounded, CHESS style) with preemption at line boundaries of the watched functions',
                'two USER functions registered under the same Python name share a slot -- not demanded (same as rebinding a global)']
-BOUNDS = {'quick': 'perm-histories: 14 binary + 8 unary operators x key sets of <=3 blades in all orderings (d=2), samples in d=3 and d=5,6 (two-digit keys), routes plain / wrapper (wraps, closure) / register / register(symbolic) / re-entrant wrapper; name classes over an ambiguous-spelling key pool (d=5); swapped-operand histories incl. d=7; operator sweeps (29 operators, two passes); flaky wrapper; 120 mixed histories of length <=3',
-          'thorough': 'the same families with 5-10x the samples; 8000 mixed histories of length <=5'}
-OUTSIDE = ['thread schedules / concurrent first calls', 'histories longer than the bound', 'same-name user functions']
+BOUNDS = {'quick': 'perm-histories: 14 binary + 8 unary operators x key sets of <=3 blades in all orderings (d=2), samples in d=3 and d=5,6 (two-digit keys), routes plain / wrapper (wraps, closure) / register / register(symbolic) / re-entrant wrapper; name classes over an ambiguous-spelling key pool (d=5); swapped-operand histories incl. d=7; operator sweeps (29 operators, two passes); flaky wrapper; 120 mixed histories of length <=3; 90 multivector-object histories; 14 two-thread scenarios x all schedules with <=1 preemption (about 110-400 schedules each, budget 400)',
+          'thorough': 'the same families with 5-10x the samples; 8000 mixed histories of length <=5; 1200 object histories; 24 two-thread scenarios x all schedules with <=2 preemptions (budget 6000 schedules each)'}
+OUTSIDE = ['thread schedules with more than 2 preemptions (1 in the quick tier), more than two threads, preemption inside a source line or inside functions other than the cache / generation drivers', 'histories longer than the bound', 'same-name user functions']
 LABEL_MOVEMENT = True
 RULE = 'histories are enumerated/seeded deterministically; a case is non-trivial when it executed a history on symbolic operands and compared at least one result with a fresh algebra (on a correct tree most comparisons are between syntactically identical solver terms, the rest are z3 queries)'
 OPTS = {'rlimit': 200_000_000, 'canary_every': 10}
@@ -180,6 +191,14 @@ def cases(tier, seed):
     for i in range(n):
         out.append(dict(kind='mixed-history', cfg=rng.choice(cfgs2 + [dict(p=3), dict(p=2, r=1)]), hseed=rng.randrange(10 ** 9),
                         length=rng.randint(2, L), wrapper=bool(rng.random() < 0.5)))
+    # --- two threads: every schedule with at most k preemptions at line boundaries of the cache / generation drivers
+    scen = [('same', 'gp'), ('same', 'add'), ('same', 'sw'), ('permuted', 'gp'), ('permuted', 'sub'), ('permuted', 'op'), ('two-ops', 'sw'), ('two-ops', 'proj'),
+            ('same', 'inv'), ('permuted', 'reverse'), ('symbolic-call', 'gp'), ('registered', 'gp'), ('registered', 'sw')]
+    for scenario, op in (scen if tier == 'thorough' else scen[:2] + scen[3:5] + scen[6:7] + scen[9:12]):
+        for route in (('plain', 'wrapper') if scenario not in ('symbolic-call', 'registered') else ('plain',)):
+            cfg = rng.choice(cfgs2)
+            out.append(dict(kind='thread-schedules', cfg=cfg, scenario=scenario, op=op, route=route, ka=rng.sample(range(4), 2), kb=rng.sample(range(4), 2),
+                            max_preempt=1 if tier == 'quick' else 2, max_schedules=400 if tier == 'quick' else 6000))
     # --- histories on a multivector OBJECT: earlier calls / uses / inspections of x must not leak into
     #     multivectors derived from x (map, filter, grade, asfullmv, negation ...) nor into later calls of x
     for i in range(90 if tier == 'quick' else 1200):
@@ -255,6 +274,8 @@ def run_case(desc, V):
         return _run_flaky(desc, V)
     if desc['kind'] == 'object-history':
         return _run_object(desc, V)
+    if desc['kind'] == 'thread-schedules':
+        return _run_threads(desc, V)
     return _run_mixed(desc, V)
 
 
@@ -644,3 +665,90 @@ def _run_object(desc, V):
     # x itself still evaluates to its own coefficients
     claims += mv_eq_claims('x-after', x(**vals), coeffs(num), fkey='object-history|source-changed')
     return claims
+
+
+# --------------------------------------------------------------------------- thread schedules
+
+def _run_threads(desc, V):
+    """
+    Two threads make their FIRST calls on one fresh algebra; all schedules with <= max_preempt preemptions at the
+    yield points of kv.sched are executed (real threads, real code, one runs at a time), each with solver-term
+    operands; after every schedule both results and a third sequential call are compared with a fresh algebra.
+    """
+    from .. import sched
+    from kingdon.multivector import MultiVector
+    cfg = dict(desc['cfg'])
+    route, op, scenario = desc['route'], desc['op'], desc['scenario']
+    if route == 'wrapper':
+        cfg['wrapper'] = 'identity'
+    arity = 2 if op in BIN_OPS else 1
+    ka, kb = list(desc['ka']), list(desc['kb'])
+    proto = make_alg(desc['cfg'])
+    a0, b0 = mv(proto, V, 'a', ka), mv(proto, V, 'b', kb)
+    a1, b1 = mv(proto, V, 'c', ka[::-1] if scenario == 'permuted' else ka), mv(proto, V, 'd', kb)
+    ops_ = [op, 'gp' if scenario == 'two-ops' else op]
+    ars = [arity, 2 if scenario == 'two-ops' else arity]
+    argsets = [[a0, b0][:ars[0]], [a1, b1][:ars[1]]]
+    fkey = f'thread-schedules|{scenario}|route={route}'
+    if scenario == 'symbolic-call':
+        x_vals = [{f'u{n}': V.var(f't{i}_{n}') for n in range(len(ka))} for i in range(2)]
+        wants = []
+        for i in range(2):
+            xs = MultiVector.fromkeysvalues(proto, tuple(ka), list(x_vals[i].values()))
+            wants.append(coeffs(xs * xs))
+    else:
+        wants = []
+        for i in range(2):
+            try:
+                wants.append(coeffs(_fresh_result(desc['cfg'], ops_[i], ars[i], argsets[i])))
+            except ZeroDivisionError:
+                return [Eq('void', 1, 1)]
+
+    def make_bodies():
+        alg = make_alg(cfg)
+        regs = {}
+        if scenario == 'symbolic-call':
+            import sympy
+            x = alg.multivector(keys=tuple(ka), values=[sympy.Symbol(f'u{n}') for n in range(len(ka))])
+            y = x * x
+            bodies = [(lambda i=i: y(**x_vals[i])) for i in range(2)]
+            again = lambda: y(**x_vals[0])
+        else:
+            rebuilt = [[MultiVector.fromkeysvalues(alg, tuple(m.keys()), list(m.values())) for m in args] for args in argsets]
+            r = 'register' if scenario == 'registered' else route
+            bodies = [(lambda i=i: _call(alg, r, ops_[i], ars[i], rebuilt[i], regs)) for i in range(2)]
+            again = lambda: _call(alg, r, ops_[0], ars[0], rebuilt[0], regs)
+
+        def finish(results, errors, trace):
+            return results, errors, again
+        return bodies, finish
+
+    outcomes, stats = sched.explore(make_bodies, max_preempt=desc['max_preempt'], max_schedules=desc['max_schedules'])
+    claims = [Note('nontrivial', ''), Note('schedules', f"{stats['schedules']} schedules (<= {stats['max_preempt']} preemptions, up to {stats['max_yield_points']} scheduling decisions"
+                                                        f"{', TRUNCATED at the schedule budget' if stats['truncated'] else ''})")]
+    for n, (trace, (results, errors, again)) in enumerate(outcomes):
+        for i in range(2):
+            if errors[i] is not None:
+                claims.append(Fail(f's{n}:thread{i}:raises', f'schedule {_fmt_trace(trace)}: thread {i} raised {type(errors[i]).__name__}: {errors[i]}', fkey=fkey + '|raises'))
+            else:
+                claims += mv_eq_claims(f's{n}:thread{i}', results[i], wants[i], fkey=fkey)
+        try:
+            claims += mv_eq_claims(f's{n}:after', again(), wants[0], fkey=fkey + '|after')
+        except Exception as e:  # noqa
+            claims.append(Fail(f's{n}:after:raises', f'schedule {_fmt_trace(trace)}: sequential call after the threads raised {type(e).__name__}: {e}', fkey=fkey + '|raises'))
+    claims.append(Eq('schedules-explored', len(outcomes) > 0, True))
+    return claims
+
+
+def _fmt_trace(trace):
+    out, prev, n = [], None, 0
+    for t in trace:
+        if t == prev:
+            n += 1
+        else:
+            if prev is not None:
+                out.append(f'T{prev}x{n}')
+            prev, n = t, 1
+    if prev is not None:
+        out.append(f'T{prev}x{n}')
+    return ' '.join(out)
